@@ -331,6 +331,9 @@ func c09Corpus(kind int) [][]byte {
 		add(cloneAll(pl.Payload(200, ref.AV1Stream([]ref.OBU{o(1, 3), o(6, 5)}, false)))...)
 		add(cloneAll(pl.Payload(200, ref.AV1Stream([]ref.OBU{o(6, 2), o(6, 2), o(6, 2), o(6, 2), o(6, 2)}, false)))...)
 		add(cloneAll(pl.Payload(5, ref.AV1Stream([]ref.OBU{o(3, 1), o(4, 6)}, true)))...)
+		// a packet with Z=1 and Y=1 whose last element starts another fragmented OBU
+		add(cloneAll(pl.Payload(8, ref.AV1Stream([]ref.OBU{o(6, 9), o(6, 10)}, false)))...)
+		add(cloneAll(pl.Payload(7, ref.AV1Stream([]ref.OBU{o(6, 7), o(3, 1), o(4, 9)}, false)))...)
 		add([]byte{0x00}, []byte{0x10}, []byte{0x10, 0x30}, []byte{0x88, 0x30, 0x01}, []byte{0x80, 0x30}, []byte{0x40, 0x02, 0x30, 0x01}, []byte{0xC0, 0x01, 0x30})
 		add([]byte{0x00, 0x05, 0x30, 0x01}, []byte{0x20, 0x01, 0x30}, []byte{0x30, 0x01, 0x30, 0x01, 0x30, 0x30}, []byte{0x00, 0x80}, []byte{0x00, 0x80, 0x80, 0x80, 0x80, 0x80, 0x80, 0x80, 0x80, 0x80, 0x01})
 		add([]byte{0x10, 0x80}, []byte{0x10, 0x32, 0x05, 0x01}, []byte{0x10, 0x32, 0x01, 0xAA}, []byte{0x10, 0x34}, []byte{0x00, 0x00, 0x00}, []byte{0x10, 0x12, 0x00}, []byte{0x18, 0x0A, 0x01, 0x02})
